@@ -127,6 +127,14 @@ def run_adv(run, P, only=None):
                 l, op, rhs = strip(t['e']), t['op'][0] + '=', {'k': 'int', 'v': 1}
             if isinstance(l, dict) and l.get('k') == 'mem' and l['f'] in COUNTERS:
                 c = ap(l)
+                # `C = C + n` / `C = n + C` is the long form of `C += n`
+                if op == '=':
+                    r0 = strip(rhs)
+                    if isinstance(r0, dict) and r0.get('k') == 'bin' and r0.get('op') == '+':
+                        for a_, b_ in ((r0['l'], r0['r']), (r0['r'], r0['l'])):
+                            if ap(strip(a_)) == c and not any(isinstance(y, dict) and ap(y) == c for y in walk(b_)):
+                                op, rhs = '+=', b_
+                                break
                 p = env.ts.get('pend:' + c)
                 if p is None:
                     return None if env is env0 else [apply_generic(ev, env, R)]
